@@ -394,15 +394,23 @@ pub fn raw_hist_strategy(min_plies: usize, max_plies: usize) -> impl Strategy<Va
         .prop_map(|(start_sel, setup, policy, choices)| RawHist { start_sel, setup, policy, choices })
 }
 
-/// Start position of a raw case: curated (about 3 in 8) or set up directly.
+/// Start position of a raw case: curated (about 3 in 8), set up directly (about 4 in 9) or planted
+/// (about 3 in 16: boxed-in king with one movable feature, en passant next to the king).
 pub fn start_of(raw: &RawHist) -> Option<(String, Pos)> {
     let cur = curated();
     if raw.start_sel < 0x6000 {
         let i = (raw.start_sel as usize * cur.len()) / 0x6000;
         Some((cur[i].tag.clone(), cur[i].pos.clone()))
-    } else {
+    } else if raw.start_sel < 0xD000 {
         let mut t = Tape::new(&raw.setup);
         setup_position(&mut t).map(|p| ("setup".to_string(), p))
+    } else if raw.start_sel < 0xE800 {
+        // planted low-mobility positions (boxed-in king plus one movable feature)
+        let mut t = Tape::new(&raw.setup);
+        plant_boxed(&mut t).map(|(p, _)| ("planted".to_string(), p))
+    } else {
+        let mut t = Tape::new(&raw.setup);
+        plant_ep_near_king(&mut t).map(|p| ("planted".to_string(), p))
     }
 }
 
